@@ -162,7 +162,7 @@ func runC13(r *Run, p *Prog) {
 				v := cs.Common.Args[memberParam[4]]
 				got := strip(T.T(v))
 				recvName := h.Params[0].Name()
-				okCopy := strings.HasPrefix(got, "call:append(nil,param:"+recvName+".names") || got == "param:"+recvName+".names"
+				okCopy := strings.HasPrefix(got, "call:append(nil,param:"+recvName+"."+svcF.Names) || got == "param:"+recvName+"."+svcF.Names
 				locked := false
 				if c, ok := v.(*ssa.Call); ok && ls != nil {
 					locked = len(ls.At[c]) > 0
@@ -249,7 +249,7 @@ func runC13(r *Run, p *Prog) {
 					if f.A == "const:false" {
 						o = strip(f.B)
 					}
-					if strings.HasPrefix(o, "ext(lookup(param:"+recv+".interfaces,"+keyT+"),1)") {
+					if strings.HasPrefix(o, "ext(lookup(param:"+recv+"."+svcF.Interfaces+","+keyT+"),1)") {
 						notReg = true
 					}
 				}
@@ -262,14 +262,14 @@ func runC13(r *Run, p *Prog) {
 			switch x := in.(type) {
 			case *ssa.MapUpdate:
 				t := strip(T.T(x.Map))
-				for _, f := range []string{"interfaces", "descriptions"} {
+				for _, f := range []string{svcF.Interfaces, svcF.Descriptions} {
 					if t == "param:"+recv+"."+f {
 						return f, true
 					}
 				}
 			case *ssa.Store:
-				if isStoreToServiceField(in, "names") {
-					return "names", true
+				if isStoreToServiceField(in, svcF.Names) {
+					return svcF.Names, true
 				}
 			}
 			return "", false
@@ -292,16 +292,16 @@ func runC13(r *Run, p *Prog) {
 				case *ssa.MapUpdate:
 					okKey := strip(T.T(x.Key)) == keyT
 					okVal := true
-					if fld == "descriptions" {
+					if fld == svcF.Descriptions {
 						okVal = strip(T.T(x.Value)) == descT
 					} else {
 						okVal = strip(T.T(x.Value)) == "param:"+ifaceP
 					}
-					r.Ob("M2", shortName(reg), fld+"[iface.VarlinkGetName()] = the registered "+ifs(fld == "descriptions", "description text", "dispatcher"), in.Pos(), okKey && okVal,
+					r.Ob("M2", shortName(reg), fld+"[iface.VarlinkGetName()] = the registered "+ifs(fld == svcF.Descriptions, "description text", "dispatcher"), in.Pos(), okKey && okVal,
 						fmt.Sprintf("key %s value %s", strip(T.T(x.Key)), strip(T.T(x.Value))))
 				case *ssa.Store:
 					got := strip(T.T(x.Val))
-					want := "call:append(param:" + recv + ".names,"
+					want := "call:append(param:" + recv + "." + svcF.Names + ","
 					r.Ob("M2", shortName(reg), "names = append(names, name): registration order, appended at the end", in.Pos(), strings.HasPrefix(got, want) && strings.Contains(got, keyT) || strings.HasPrefix(got, want),
 						"names is updated as "+got)
 					// the appended element is the name
@@ -321,7 +321,7 @@ func runC13(r *Run, p *Prog) {
 				fs := T.edgeFactsOn(b, s)
 				refuse := m.runningFact(fs, true)
 				for _, f := range fs {
-					if f.Op == "EQ" && (f.A == "const:true" || f.B == "const:true") && strings.Contains(f.A+f.B, "lookup(param:"+recv+".interfaces,") {
+					if f.Op == "EQ" && (f.A == "const:true" || f.B == "const:true") && strings.Contains(f.A+f.B, "lookup(param:"+recv+"."+svcF.Interfaces+",") {
 						refuse = true
 					}
 				}
@@ -336,7 +336,7 @@ func runC13(r *Run, p *Prog) {
 			}
 		}
 		// no other writers
-		for _, fld := range []string{"interfaces", "descriptions", "names"} {
+		for _, fld := range []string{svcF.Interfaces, svcF.Descriptions, svcF.Names} {
 			var fns []*ssa.Function
 			for _, f := range p.FuncsOf(pkgVarlink) {
 				if f != ctor && f != reg {
@@ -374,9 +374,9 @@ func runC13(r *Run, p *Prog) {
 		}
 		if svc != nil {
 			fs := fieldStores(svc)
-			empty := len(fs["names"]) == 0
-			maps := len(fs["interfaces"]) == 1 && len(fs["descriptions"]) == 1
-			for _, f := range []string{"interfaces", "descriptions"} {
+			empty := len(fs[svcF.Names]) == 0
+			maps := len(fs[svcF.Interfaces]) == 1 && len(fs[svcF.Descriptions]) == 1
+			for _, f := range []string{svcF.Interfaces, svcF.Descriptions} {
 				for _, v := range fs[f] {
 					if _, ok := v.(*ssa.MakeMap); !ok {
 						maps = false
@@ -392,7 +392,7 @@ func runC13(r *Run, p *Prog) {
 		for _, f := range p.FuncsOf(pkgVarlink) {
 			for _, b := range f.Blocks {
 				for _, in := range b.Instrs {
-					if lk, ok := in.(*ssa.Lookup); ok && strings.HasSuffix(strip(T.T(lk.X)), ".descriptions") && f != reg {
+					if lk, ok := in.(*ssa.Lookup); ok && strings.HasSuffix(strip(T.T(lk.X)), "."+svcF.Descriptions) && f != reg {
 						h = f
 					}
 				}
@@ -404,7 +404,7 @@ func runC13(r *Run, p *Prog) {
 		}
 		recv := h.Params[0].Name()
 		nameP := "param:" + h.Params[len(h.Params)-1].Name()
-		lk := "lookup(param:" + recv + ".descriptions," + nameP + ")"
+		lk := "lookup(param:" + recv + "." + svcF.Descriptions + "," + nameP + ")"
 		n := 0
 		for _, rv := range returnedValues(h, 0) {
 			c, ok := rv.Val.(*ssa.Call)
@@ -554,11 +554,11 @@ func testsAtomicWithUpdate(p *Prog, T *Terms, ls *LockSets, reg *ssa.Function, u
 		for _, in := range b.Instrs {
 			switch x := in.(type) {
 			case *ssa.UnOp:
-				if strip(T.T(x)) == "param:"+recv+".running" {
+				if strip(T.T(x)) == "param:"+recv+"."+svcF.Running {
 					tests = append(tests, in)
 				}
 			case *ssa.Lookup:
-				if strip(T.T(x.X)) == "param:"+recv+".interfaces" && x.CommaOk {
+				if strip(T.T(x.X)) == "param:"+recv+"."+svcF.Interfaces && x.CommaOk {
 					tests = append(tests, in)
 				}
 			}
